@@ -71,17 +71,22 @@ TwinCostOk(e) == e.twin.ran /\ e.twin.cost_equal
 TwinClass(e) == IF IsCompressed(cfg) /\ e.rejected_attempts > 0 /\ (e.twin.ran => e.twin.spends_equal /\ e.twin.sig_equal)
                 THEN "C10L" ELSE "C10"
 
-Init == /\ BInit([kind |-> "compressed", max |-> 100000000, cpb |-> 12000, thr |-> MinCostThreshold, skip |-> MaxSkippedItems])
+Init == /\ cfg = [kind |-> "interned", max |-> 100000000, cpb |-> 12000, thr |-> MinCostThreshold, skip |-> MaxSkippedItems]
+        /\ phase = "open" /\ last = [k |-> "new"]
+        /\ accepted = <<>> /\ blockCost = QuoteCost /\ byteCost = 0 /\ size = 0 /\ skipped = 0 /\ sigBag = <<>>
         /\ void = TRUE /\ l = 1 /\ MismatchInit
 
 Reset(e) ==
   LET c == [kind |-> e.kind, max |-> e.max, cpb |-> e.cpb, thr |-> MinCostThreshold, skip |-> MaxSkippedItems]
-      s == InitState(c) IN
+      \* the initial state that explains cost() of the fresh builder (stale or exact start of the compressed builder)
+      fits == {s \in InitStates(c) : e.cost0 = Est(c, s)}
+      ok == ConfigOk(c) /\ e.res = "ok" /\ fits # {}
+      s == IF fits # {} THEN CHOOSE x \in fits : TRUE ELSE InitState(c) IN
   /\ cfg' = c /\ phase' = "open" /\ last' = [k |-> "new"]
   /\ SetSt(s)
   /\ CheckC(ConfigOk(c), l, "tool")
-  /\ CheckC(e.res = "ok" /\ e.cost0 = Est(c, s), l, "C10")
-  /\ void' = ~(ConfigOk(c) /\ e.res = "ok" /\ e.cost0 = Est(c, s))
+  /\ CheckC(e.res = "ok" /\ fits # {}, l, "C10")
+  /\ void' = ~ok
 
 Next ==
   /\ l <= Len(Rec)
